@@ -24,6 +24,7 @@ type Outcome struct {
 	label string
 	st    *State
 	rets  []Val
+	pos   token.Pos // position of the return statement (scope of witnesses in postconditions)
 }
 
 // frame: the function (or inlined function / closure) being executed.
